@@ -302,7 +302,7 @@ func c15Matrix(t gen.Fataler, rec *stat.Recorder, cfg c15Config) {
 // load must end with exactly that database, with no further attempts.
 func TestC15_Transient(t *testing.T) {
 	rec := stat.For("C15")
-	rec.Rule("fault sequences: main or personal file broken (malformed / wrong shape / binary / directory) for the first k attempts and repaired from the attempt observer before attempt k+1, under generated retry configurations. Oracle: if any attempt is observed to succeed, the result is the real database (main entries then notebook entries), err == nil, and no attempt follows the successful one; attempts <= max(1, configured); waits monotone and capped.")
+	rec.Rule("fault sequences: main or personal file broken (malformed / wrong shape / binary / directory) for the first k attempts and, from the attempt observer before attempt k+1, repaired / removed / broken in another way, under generated retry configurations. Oracle: if any attempt is observed to succeed, the result is the real database (main entries then notebook entries), err == nil, and no attempt follows the successful one; attempts <= max(1, configured); a main file that went missing is tried once more at most; waits monotone and capped.")
 	rapid.Check(t, func(t *rapid.T) {
 		cfg := c15Config{
 			MaxAttempts:   rapid.IntRange(1, 5).Draw(t, "attempts"),
@@ -313,6 +313,9 @@ func TestC15_Transient(t *testing.T) {
 		which := rapid.SampledFrom([]string{"main", "main", "personal"}).Draw(t, "which")
 		fault := rapid.SampledFrom([]string{"malformed", "wrong-shape", "binary", "directory"}).Draw(t, "fault")
 		k := rapid.IntRange(1, 4).Draw(t, "repair-after")
+		// what the file turns into before attempt k+1: repaired, gone, or broken in another way
+		then := rapid.SampledFrom([]string{"repair", "repair", "missing", "missing", "other-fault"}).Draw(t, "then")
+		fault2 := rapid.SampledFrom([]string{"malformed", "wrong-shape", "binary"}).Draw(t, "fault2")
 		withPersonal := which == "personal" || rapid.Bool().Draw(t, "personal-present")
 		dir := mkdirWork("c15t-")
 		defer os.RemoveAll(dir)
@@ -341,9 +344,14 @@ func TestC15_Transient(t *testing.T) {
 				}
 				if err != nil {
 					out.LastErr = err.Error()
-					if n == k { // repair before the next attempt
+					if n == k { // change the file before the next attempt
 						os.RemoveAll(broken)
-						os.WriteFile(broken, gen.EmitYAML(good), 0o644)
+						switch then {
+						case "repair":
+							os.WriteFile(broken, gen.EmitYAML(good), 0o644)
+						case "other-fault":
+							c15Materialise(dir, filepath.Base(broken), fault2, good)
+						}
 					}
 				}
 			},
@@ -356,7 +364,13 @@ func TestC15_Transient(t *testing.T) {
 		db, err := dr.LoadDatabaseWithFallback(mp, pp)
 		os.Stdout = saved
 		recovery.VerifSetObserver(nil)
-		where := fmt.Sprintf("%s file %s until attempt %d, config=%+v, attempts seen=%d", which, fault, k, cfg, out.Attempts)
+		where := fmt.Sprintf("%s file %s until attempt %d, then %s, config=%+v, attempts seen=%d", which, fault, k, then, cfg, out.Attempts)
+		if then == "missing" && which == "personal" {
+			withPersonal = false // a notebook that is merely absent: the real database is the main entries alone
+		}
+		if then == "missing" && which == "main" && out.Attempts > k+1 {
+			t.Fatalf("the main file went missing after attempt %d, yet %d attempts were made: a missing file is tried once (%s)", k, out.Attempts, where)
+		}
 		if db == nil || err != nil {
 			t.Fatalf("loading ended with db=nil:%v err=%v (%s)", db == nil, err, where)
 		}
@@ -393,6 +407,6 @@ func TestC15_Transient(t *testing.T) {
 		if successAt == 0 {
 			label = "transient-budget-exhausted"
 		}
-		rec.Case(true, map[string]any{"transient": which, "fault": fault, "repaired_after_attempt": k, "config": cfg, "attempts": out.Attempts, "success_at": successAt}, "transient", label)
+		rec.Case(true, map[string]any{"transient": which, "fault": fault, "changed_after_attempt": k, "then": then, "config": cfg, "attempts": out.Attempts, "success_at": successAt}, "transient", label, "then:"+then)
 	})
 }
